@@ -328,7 +328,7 @@ def _strategies_cfg(ctx):
     p = os.path.join(ctx.work, "strategies.cfg")
     with open(p, "w") as f:
         f.write("INIT Init\nNEXT Next\nINVARIANT CachedPairsUnique\nINVARIANT CachedIntNeedsFixedShape\n"
-                "INVARIANT TierNesting\nINVARIANT ReasonTotal\nPOSTCONDITION Post\nCHECK_DEADLOCK FALSE\n")
+                "INVARIANT TierNesting\nINVARIANT ReasonTotal\nINVARIANT ChargedSameAsPlain\nPOSTCONDITION Post\nCHECK_DEADLOCK FALSE\n")
     return p
 
 
@@ -339,21 +339,25 @@ def _baseline_of(opt, baseline):
     return b
 
 
-GROUPS = (("amp_model", "preprocessor"), ("use_tf_function", "jit_compile", "no_id_cached"), ("lazy_call",), ("nll",), ("float_shape",))
+GROUPS = (("amp_model", "preprocessor"), ("use_tf_function", "jit_compile", "no_id_cached"), ("lazy_call",), ("nll",), ("float_shape",),
+          ("charged", "cp_trans"))
 
 
 def _projections(opt, baseline):
-    """the strategies that keep exactly one deviating option group of opt"""
+    """the strategies that keep a proper non-empty subset of the deviating option groups of opt, fewest groups first"""
+    import itertools
+
     base = _baseline_of(opt, baseline)
-    base["float_shape"] = False
+    base.update(float_shape=False, charged=False, cp_trans=True)
+    dev = [g for g in GROUPS if any(opt[k] != base[k] for k in g)]
     out = []
-    for g in GROUPS:
-        if any(opt[k] != base[k] for k in g):
+    for r in range(1, len(dev)):
+        for keep in itertools.combinations(dev, r):
             q = dict(base)
-            for k in g:
-                q[k] = opt[k]
-            if q != opt:
-                out.append(q)
+            for g in keep:
+                for k in g:
+                    q[k] = opt[k]
+            out.append(q)
     return out
 
 
@@ -364,7 +368,9 @@ def _want_nll(opt, quick):
         return True
     if opt["lazy_call"]:
         return not quick  # quick: eval() and the tf.data batches of the density only
-    return not quick and (opt["amp_model"], opt["preprocessor"]) != ("default", "default") and not opt["use_tf_function"]
+    # (charged samples: density observers only, so that a finding has the same key in both tiers)
+    return (not quick and (opt["amp_model"], opt["preprocessor"]) != ("default", "default") and not opt["use_tf_function"]
+            and not opt["charged"])
 
 
 def run_strategies(ctx, only=None):
@@ -388,17 +394,19 @@ def run_strategies(ctx, only=None):
     files = S.write_events(ctx.work, n_data, n_phsp, ctx.seed)
     refs = {}
 
-    def ref_for(opt, baseline):
-        k = (baseline, opt["float_shape"])
-        if k not in refs:
-            refs[k] = S.run_strategy(_baseline_of(opt, baseline), files, seed=ctx.seed, batch=batch, lazy_batch=batch)
+    def ref_for(opt, baseline, need_nll=True):
+        # the reference is the plain eager default on the SAME card and sample (float_shape, charges, cp_trans)
+        k = (baseline, opt["float_shape"], opt["charged"], opt["cp_trans"])
+        if k not in refs or (need_nll and not refs[k]["nll"]):
+            refs[k] = S.run_strategy(_baseline_of(opt, baseline), files, points=refs[k]["points"] if k in refs else None,
+                                     seed=ctx.seed, batch=batch, lazy_batch=batch, want_nll=need_nll)
             # the two calls of the plain eager default agree with each other
             for a, b in refs[k]["density"]:
                 if S.rel_err(b, a) > 1e-12:
                     raise tlc.MachineryError("eager default not reproducible")
         return refs[k]
 
-    n_app = n_out = n_out_raise = n_out_same = n_out_diff = n_base = 0
+    n_app = n_out = n_out_raise = n_out_same = n_out_diff = n_base = n_charged = 0
     failed = {}
     worst = {}
     t_start = time.time()
@@ -411,8 +419,9 @@ def run_strategies(ctx, only=None):
             # outside the quantifier: recorded, never a violation
             n_out += 1
             try:
-                ref = ref_for(opt, x["baseline"])
-                obs = S.run_strategy(opt, files, points=ref["points"], seed=ctx.seed, batch=batch, lazy_batch=batch, want_nll=not opt["jit_compile"])
+                ref = ref_for(opt, x["baseline"], need_nll=not opt["jit_compile"] and not opt["charged"])
+                obs = S.run_strategy(opt, files, points=ref["points"], seed=ctx.seed, batch=batch, lazy_batch=batch,
+                                     want_nll=not opt["jit_compile"] and not opt["charged"])
                 bad, w = S.compare(obs, ref, tol)
                 if bad:
                     n_out_diff += 1
@@ -427,14 +436,14 @@ def run_strategies(ctx, only=None):
         if opt == _baseline_of(opt, x["baseline"]):
             n_base += 1  # the baseline itself (plain eager evaluation)
             try:
-                ref_for(opt, x["baseline"])
+                ref_for(opt, x["baseline"], need_nll=not opt["charged"])
             except tlc.MachineryError:
                 raise
             except Exception as e:
                 raise tlc.MachineryError("baseline strategy failed: %r" % e)
             continue
         try:
-            ref = ref_for(opt, x["baseline"])
+            ref = ref_for(opt, x["baseline"], need_nll=_want_nll(opt, quick))
         except tlc.MachineryError:
             raise
         except Exception as e:
@@ -449,6 +458,7 @@ def run_strategies(ctx, only=None):
             continue
         bad, w = S.compare(obs, ref, tol)
         n_app += 1
+        n_charged += 1 if opt["charged"] else 0
         n_obs = 2 * len(obs["density"]) + 2 * len(obs["nll"]) + (1 if obs.get("lazy") else 0)
         ctx.count(n_obs, distinct_key=key, nontrivial=name != "default")
         if not bad:
@@ -468,7 +478,7 @@ def run_strategies(ctx, only=None):
             ctx.sample({"part": "strategy", "options": opt, "max_relative_difference": w, "observers": n_obs})
         ctx.log("strategy %-58s %5.1fs worst=%.1e%s" % (name, time.time() - t0, w, "  DIFFERS" if bad else ""))
     ok = [v_ for v_ in worst.values() if np.isfinite(v_)]
-    ctx.part("strategies", enumerated=out["n_all"], applicable=out["n_applicable"], executed_applicable=n_app, baselines=n_base,
+    ctx.part("strategies", enumerated=out["n_all"], applicable=out["n_applicable"], executed_applicable=n_app, executed_on_charged_samples=n_charged, baselines=n_base,
              outside_quantifier=n_out, outside_raise=n_out_raise, outside_same_value=n_out_same, outside_different_value=n_out_diff,
              events_data=n_data, events_phsp=n_phsp, max_relative_difference_of_agreeing=max(ok) if ok else None,
              wall_s=round(time.time() - t_start, 1))
